@@ -47,6 +47,11 @@ func checkC07(c *Ctx) {
 	// the identifier (which enters every labelled hash as suite_id) and the hash have been assigned
 	checkInitCopy(c, p, "C07", []string{"hpke"})
 
+	// RFC 9180 7.3: ChaCha20Poly1305 has Nn = 12; the X variant of the constructor takes 24-byte nonces (the
+	// key schedule sizes base_nonce and the sequence number from the cipher, NonceSize() reads the table)
+	c.callCountRule(p, "C07.codepoints", "AEAD 0x0003 is ChaCha20-Poly1305 with 12-byte nonces (not XChaCha)", p.Func("hpke", "AEAD", "New"),
+		map[string]int{"golang.org/x/crypto/chacha20poly1305.New": 1, "golang.org/x/crypto/chacha20poly1305.NewX": 0})
+
 	none := `nil|""`
 	suiteLE, suiteLX := "(hpke.Suite).labeledExtract", "(hpke.Suite).labeledExpand"
 	kemLE, kemLX := "(hpke.kemBase).labeledExtract", "(hpke.kemBase).labeledExpand"
